@@ -810,7 +810,7 @@ func readContractFile(path, pkgPath string) (*ContractFile, error) {
 			cur.Counts[f[0]] = f[2]
 		case "loop":
 			// loop N invariant [label] expr | loop N visited name | loop N index name | loop N modifies a, b
-			f := strings.SplitN(rest, " ", 3)
+			f := splitWords(rest, 3)
 			if len(f) < 3 {
 				return nil, fail(rl.line, "bad loop clause")
 			}
@@ -850,7 +850,7 @@ func readContractFile(path, pkgPath string) (*ContractFile, error) {
 			}
 		case "at":
 			// at call <callee>#k assert [label] expr
-			f := strings.SplitN(rest, " ", 4)
+			f := splitWords(rest, 4)
 			if len(f) < 4 || f[0] != "call" || f[2] != "assert" {
 				return nil, fail(rl.line, "at call <callee>#k assert <expr>")
 			}
@@ -1072,4 +1072,22 @@ func splitConj(e SExpr) []SExpr {
 		return append(splitConj(b.X), splitConj(b.Y)...)
 	}
 	return []SExpr{e}
+}
+
+// splitWords splits s into at most n whitespace-separated words; the last one keeps the rest.
+func splitWords(s string, n int) []string {
+	var out []string
+	s = strings.TrimSpace(s)
+	for len(out) < n-1 {
+		i := strings.IndexAny(s, " \t")
+		if i < 0 {
+			break
+		}
+		out = append(out, s[:i])
+		s = strings.TrimSpace(s[i:])
+	}
+	if s != "" {
+		out = append(out, s)
+	}
+	return out
 }
